@@ -271,7 +271,7 @@ structure ExprClosed (P : Expr → Prop) : Prop where
   reindex : ∀ e v, P e → P (e.reindex v)
   removeVar : ∀ e g, P e → P (e.removeVar g)
   removeInteraction : ∀ e gu gv, P e → P (e.removeInteraction gu gv)
-  move : ∀ gs mi, P (buildMove gs mi)
+  move : ∀ (gs : List Nat) (mi : ModelIn), ModelInOK mi → gs.Nodup → gs.length = mi.vars.length → P (buildMove gs mi)
 
 def AllExprs (P : Expr → Prop) (m : Cqm) : Prop := P m.obj ∧ ∀ c ∈ m.cons, P c.e
 
@@ -450,8 +450,10 @@ theorem all_spinToBinary {m : Cqm} (h : AllExprs P m) : AllExprs P m.spinToBinar
     · exact all_changeVartypeAt hP h _ g
     · exact h
 
-theorem all_addConstraintModel {m : Cqm} (h : AllExprs P m) (mi : ModelIn) (sense : Sense) (rhs : Rat) (label : Label)
+theorem all_addConstraintModel {m : Cqm} (hwf : CqmWF m) (h : AllExprs P m) {mi : ModelIn} (hmi : ModelInOK mi) (sense : Sense)
+    (rhs : Rat) (label : Label)
     (copy : Bool) (weight : Option Rat) (pen : Nat) : AllExprs P (m.addConstraintModel mi sense rhs label copy weight pen).1 := by
+  obtain ⟨_, _, _, _, _, hlen, _, hndm⟩ := mapping_props hwf hmi
   unfold Cqm.addConstraintModel
   by_cases hl : label ∈ m.clabels
   · rw [if_pos hl]; exact h
@@ -462,7 +464,7 @@ theorem all_addConstraintModel {m : Cqm} (h : AllExprs P m) (mi : ModelIn) (sens
       simp only []
       cases copy with
       | true => exact all_pushCons (all_addMissing h mi) (all_buildCopy hP _ _ _) _ _ _ _ _
-      | false => exact all_pushCons (all_addMissing h mi) (hP.move _ _) _ _ _ _ _
+      | false => exact all_pushCons (all_addMissing h mi) (hP.move _ _ hmi hndm hlen) _ _ _ _ _
 
 omit hP in
 theorem all_markLast {r : Res} (hr : AllExprs P r.1) (k : Nat) :
@@ -484,7 +486,7 @@ theorem all_addVariableCore {m : Cqm} (h : AllExprs P m) (vt : VT4) (v : Option 
   · split_ifs <;> exact h
   · exact h
 
-theorem step_all {m : Cqm} (h : AllExprs P m) (op : Op) : AllExprs P (m.step op).1 := by
+theorem step_all {m : Cqm} (hwf : CqmWF m) (h : AllExprs P m) (op : Op) (hop : OpOK op) : AllExprs P (m.step op).1 := by
   cases op with
   | addVariable vt v lb ub => exact all_addVariableCore h _ _ _ _ _ _
   | setObjectiveModel mi =>
@@ -494,7 +496,7 @@ theorem step_all {m : Cqm} (h : AllExprs P m) (op : Op) : AllExprs P (m.step op)
     · exact h
     · exact ⟨all_buildCopy hP _ _ _, (all_addMissing h mi).2⟩
   | setObjectiveTerms ts => exact ⟨all_addTerms hP m ts _ hP.empty, h.2⟩
-  | addConstraintModel mi sense rhs label copy weight pen => exact all_addConstraintModel hP h _ _ _ _ _ _ _
+  | addConstraintModel mi sense rhs label copy weight pen => exact all_addConstraintModel hP hwf h hop _ _ _ _ _ _
   | addConstraintTerms ts sense rhs label weight pen =>
     show AllExprs P (m.addConstraintTerms ts sense rhs label weight pen).1
     unfold Cqm.addConstraintTerms
@@ -512,20 +514,20 @@ theorem step_all {m : Cqm} (h : AllExprs P m) (op : Op) : AllExprs P (m.step op)
     split_ifs
     · exact h
     · exact h
-    · exact all_markLast (all_addConstraintModel hP h mi .eq 1 label copy none 0) m.cons.length
+    · exact all_markLast (all_addConstraintModel hP hwf h hop .eq 1 label copy none 0) m.cons.length
   | addDiscreteComparison mi sense rhs label copy chk =>
     show AllExprs P (m.addDiscreteComparison mi sense rhs label copy chk).1
     unfold Cqm.addDiscreteComparison Cqm.addDiscreteModel
     split_ifs
     all_goals try exact h
-    exact all_markLast (all_addConstraintModel hP h mi .eq 1 label copy none 0) m.cons.length
+    exact all_markLast (all_addConstraintModel hP hwf h hop .eq 1 label copy none 0) m.cons.length
   | addDiscreteVars vs label chk =>
     show AllExprs P (m.addDiscreteVars vs label chk).1
     unfold Cqm.addDiscreteVars
     split_ifs
     · exact h
     · exact h
-    · exact all_markLast (all_addConstraintModel hP h (discreteModelOf vs) .eq 1 label false none 0) m.cons.length
+    · exact all_markLast (all_addConstraintModel hP hwf h (discreteModelOf_ok vs) .eq 1 label false none 0) m.cons.length
   | removeVariable v => exact all_removeVariableR hP h v
   | fixVariable v a => exact all_fixVariableR hP h v a
   | fixVariables fixed => exact all_fixVariablesInplace hP fixed h
@@ -645,14 +647,15 @@ theorem step_all {m : Cqm} (h : AllExprs P m) (op : Op) : AllExprs P (m.step op)
     · exact all_setWeight h _ _ _
   | deepcopy => exact h
 
-theorem run_all (ops : List Op) : ∀ {m : Cqm}, AllExprs P m → AllExprs P (m.run ops) := by
+theorem run_all (ops : List Op) : ∀ {m : Cqm}, CqmWF m → AllExprs P m → (∀ op ∈ ops, OpOK op) → AllExprs P (m.run ops) := by
   induction ops with
-  | nil => intro m h; exact h
+  | nil => intro m _ h _; exact h
   | cons op t ih =>
-    intro m h
+    intro m hwf h hops
     unfold Cqm.run
     rw [List.foldl_cons]
-    exact ih (step_all hP h op)
+    exact ih (step_wf hwf op (hops op List.mem_cons_self)) (step_all hP hwf h op (hops op List.mem_cons_self))
+      (fun o ho => hops o (List.mem_cons_of_mem _ ho))
 
 end closed
 
@@ -660,11 +663,11 @@ theorem exprSorted_closed : ExprClosed ExprSorted :=
   ⟨exprSorted_empty, fun _ g b h => addLinear_sorted h g b, fun _ g b h => setLinear_sorted h g b,
    fun _ b h => addOffset_sorted h b, fun _ _ h => h, fun _ vt gu gv b h => addQuadratic_sorted h vt gu gv b,
    fun _ g a c h => substitute_sorted h g a c, fun _ v h => reindex_sorted h v, fun _ g h => removeVar_sorted h g,
-   fun _ gu gv h => removeInteraction_sorted h gu gv, fun gs mi => buildMove_sorted gs mi⟩
+   fun _ gu gv h => removeInteraction_sorted h gu gv, fun gs mi _ _ _ => buildMove_sorted gs mi⟩
 
 /-- after any history every neighbourhood of every expression is strictly sorted by local index -/
-theorem run_sorted (ops : List Op) : AllExprs ExprSorted (({} : Cqm).run ops) :=
-  run_all exprSorted_closed ops ⟨exprSorted_empty, by intro c hc; cases hc⟩
+theorem run_sorted (ops : List Op) (hops : ∀ op ∈ ops, OpOK op) : AllExprs ExprSorted (({} : Cqm).run ops) :=
+  run_all exprSorted_closed ops cqmWF_empty ⟨exprSorted_empty, by intro c hc; cases hc⟩ hops
 
 
 /-! ### adding a quadratic term, seen on the coefficients -/
